@@ -79,7 +79,7 @@ class Show(ASTNode):
             channel = ''
             if self.name is not None:
                 channel = f' FOR CHANNEL {self.name}'
-            return f'SHOW {self.category} {channel}'
+            return f'SHOW {self.category} {channel}{from_str}{in_str}{like_str}{where_str}'
 
         return f'SHOW{modes_str} {self.category}{from_str}{in_str}{like_str}{where_str}'
 
